@@ -56,6 +56,8 @@ type bprover struct {
 	facts  []bfact
 	stored map[string]bool // "base.field" stored in fn
 	budget int
+	// given: lower bounds of parameters that a reviewed table entry states as the callers' obligation
+	given map[*ssa.Parameter]int64
 }
 
 var bproverCache = map[*ssa.Function]*bprover{}
@@ -413,6 +415,11 @@ func (p *bprover) lower(v ssa.Value, at bpoint, seen map[ssa.Value]bool) (int64,
 				}
 				upd(c - o)
 			}
+		}
+	}
+	if par, ok := base.(*ssa.Parameter); ok {
+		if c, ok := p.given[par]; ok {
+			upd(c)
 		}
 	}
 	switch x := base.(type) {
@@ -819,6 +826,12 @@ func (p *bprover) summaryUpper(x *ssa.Extract, r bref, at bpoint) (int64, bool) 
 // proveSite returns a non-empty justification when the SSA instruction at the bracket position pos of fn
 // (searched in fn and its closures) is provably in bounds
 func proveSite(fn *ssa.Function, lbrack token.Pos, node ast.Expr) string {
+	return proveSiteGiven(fn, lbrack, node, nil)
+}
+
+// proveSiteGiven: the same under stated lower bounds of fn's parameters ("param1>=0": parameter number 1, counting the
+// receiver as 0, is never negative - an obligation of the callers recorded in the reviewed table)
+func proveSiteGiven(fn *ssa.Function, lbrack token.Pos, node ast.Expr, given []string) string {
 	var fns []*ssa.Function
 	var add func(f *ssa.Function)
 	add = func(f *ssa.Function) {
@@ -834,6 +847,18 @@ func proveSite(fn *ssa.Function, lbrack token.Pos, node ast.Expr) string {
 				continue
 			}
 			p := newBProver(f)
+			p.given = nil
+			if len(given) > 0 {
+				p.given = map[*ssa.Parameter]int64{}
+				for _, g := range given {
+					var idx int
+					var lo int64
+					if n, _ := fmt.Sscanf(g, "param%d>=%d", &idx, &lo); n == 2 && idx < len(fn.Params) {
+						p.given[fn.Params[idx]] = lo
+					}
+				}
+				defer func() { p.given = nil }()
+			}
 			at := bpoint{b: in.Block()}
 			// facts established by the test that ends a dominating block hold in `at`; the instruction's own
 			// block end is a safe point because a block has no internal control flow
